@@ -454,3 +454,28 @@ Fixpoint ev_opens (l : list ev) : list (nat * fmode) :=
   | _ :: r => ev_opens r
   end.
 
+
+(* ---------------- signal dispositions of the stages (core.rs run_single_program, main.rs) ----------------
+   A disposition map says which signals are IGNORED (ignored dispositions are copied by fork and survive execve; caught ones are
+   reset by execve).  Program order per stage: [here-string pipe]; fork -- the child copies the shell's map and resets SIGTSTP,
+   SIGQUIT, SIGINT to default (core.rs:333-336); the parent, ONLY around the write of the here-string, AFTER the fork:
+   signal(SIGPIPE, SIG_IGN); write; signal(SIGPIPE, SIG_DFL) (1ce9d84). *)
+Inductive sg := SgPipe | SgTstp | SgQuit | SgInt | SgOther (n : nat).
+Definition sg_eqb (a b : sg) : bool :=
+  match a, b with
+  | SgPipe, SgPipe | SgTstp, SgTstp | SgQuit, SgQuit | SgInt, SgInt => true
+  | SgOther x, SgOther y => Nat.eqb x y
+  | _, _ => false
+  end.
+Definition disp := sg -> bool.                      (* true = ignored *)
+Definition sig_set (s : sg) (ign : bool) (D : disp) : disp := fun x => if sg_eqb x s then ign else D x.
+Definition child_disp (D : disp) : disp := sig_set SgInt false (sig_set SgQuit false (sig_set SgTstp false D)).
+Definition stage_is_here (st : stage) : bool := match s_from st with FHere => true | _ => false end.
+Definition parent_disp_after (st : stage) (D : disp) : disp :=
+  if stage_is_here st then sig_set SgPipe false (sig_set SgPipe true D) else D.
+(* dispositions every stage's child has at its exec, in stage order, and the shell's afterwards *)
+Fixpoint stages_disp (sts : list stage) (D : disp) : list disp * disp :=
+  match sts with
+  | [] => ([], D)
+  | st :: rest => let '(cs, D') := stages_disp rest (parent_disp_after st D) in (child_disp D :: cs, D')
+  end.
